@@ -547,6 +547,7 @@ def reference(case):
                     ref["problems"].append("nocrash driver-error: script state at the end: %s" % pb)
         ref["final_csv"] = _read_csv(d)
         ref["final_listing"] = _listing(d)
+        ref["problems"] = [p.replace(d, "<dir>") for p in ref["problems"]]
     if len(_REF_CACHE) > 64:
         _REF_CACHE.clear()
     _REF_CACHE[k] = ref
@@ -647,12 +648,8 @@ def _nontrivial_crash(case):
 # case generators
 
 
-def _histories(ctx):
-    """metric sequences: every sequence over GRID up to a length, plus two-valued longer ones"""
-    if ctx.quick:
-        full, two = 3, 4
-    else:
-        full, two = 4, 5
+def _histories(full, two):
+    """every metric sequence over GRID of length 1..full, and over the first two grid values of length full+1..two"""
     for L in range(1, full + 1):
         for m in itertools.product(GRID, repeat=L):
             yield list(m)
@@ -661,13 +658,12 @@ def _histories(ctx):
             yield list(m)
 
 
-def _configs(ctx):
-    fmts = ("epoch", "const") if ctx.quick else ("epoch", "const", "mixed_m", "mixed_o")
-    settings = ("plain", "es_rlr") if ctx.quick else ("plain", "es_rlr", "burn", "rlr_only")
-    for keep in (True, False):
-        for fmt in fmts:
-            for s in settings:
-                yield keep, fmt, s
+def _blocks(ctx):
+    """(formats, settings, full, two) blocks of the exhaustive part"""
+    if ctx.quick:
+        return [(("epoch", "const"), ("plain", "es_rlr"), 3, 4)]
+    return [(("epoch", "const"), ("plain", "es_rlr", "burn", "rlr_only"), 4, 5),
+            (("mixed_m", "mixed_o"), ("plain", "es_rlr"), 3, 4)]
 
 
 def _random_cases(ctx, count):
@@ -681,7 +677,7 @@ def _random_cases(ctx, count):
             setting.update(early_stopping_threshold=rng.choice([0.5, 1.0]), early_stopping_patience=rng.randint(1, 3), early_stopping_burnin=rng.randint(0, 2))
         if rng.random() < 0.7:
             setting.update(reduce_lr_threshold=rng.choice([0.5, 1.0]), reduce_lr_patience=rng.randint(1, 3), reduce_lr_cooldown=rng.randint(0, 2),
-                           reduce_lr_burnin=rng.randint(0, 2), reduce_lr_factor=rng.choice([0.5, 0.25]))
+                           reduce_lr_burnin=rng.randint(0, 2), reduce_lr_factor=0.5)  # 0.5^k, k <= 7, prints without loss
         yield {"mets": mets, "keep": rng.random() < 0.6, "fmt": rng.choice(["epoch", "epoch", "const", "mixed_m", "mixed_o"]), "setting": setting}
 
 
@@ -689,9 +685,12 @@ N_RANDOM = 400  # thorough tier: random (history, setting) pairs, every cut of e
 
 
 def cases_keep(ctx):
-    for keep, fmt, s in _configs(ctx):
-        for mets in _histories(ctx):
-            yield {"mets": mets, "keep": keep, "fmt": fmt, "setting": s}
+    for fmts, settings, full, two in _blocks(ctx):
+        for keep in (True, False):
+            for fmt in fmts:
+                for s in settings:
+                    for mets in _histories(full, two):
+                        yield {"mets": mets, "keep": keep, "fmt": fmt, "setting": s}
     if not ctx.quick:
         for c in _random_cases(ctx, N_RANDOM):
             yield c
@@ -729,11 +728,11 @@ def _parts(msg):
 
 
 def _known_stale_checkpoints(case, msg):
-    """KF-C16-1: only last+best kept, epoch-unique names, death after the history row of epoch e was appended
+    """KF-C16-1: only last+best kept, names with the epoch field (in at least one format), death after the history row of epoch e was appended
     and before the clean-up of update e finished (only removals were still pending); the ONLY thing wrong afterwards is
     that completed later updates leave extra checkpoint files of epochs < e behind (nothing missing, nothing else extra)."""
     c = _cut(msg)
-    if not (case.get("keep") and case.get("fmt") == "epoch" and c and msg.startswith("continue: ")):
+    if not (case.get("keep") and case.get("fmt") in ("epoch", "mixed_m", "mixed_o") and c and msg.startswith("continue: ")):
         return False
     if not (c["row"] and c["pending"] and all(p == "remove" for p in c["pending"])):
         return False
@@ -768,14 +767,89 @@ def _known_history_ahead(case, msg):
     return ok > 0
 
 
+def _known_stale_tempfiles(case, msg):
+    """KF-C16-3: only last+best kept; death between the creation of a temporary checkpoint file and the last rename of
+    that update: the randomly named temporary file(s) stay in the state directory after every later completed update.
+    Nothing else is wrong (nothing missing, no other extra file, history and parameters as uninterrupted)."""
+    c = _cut(msg)
+    if not (case.get("keep") and c and msg.startswith("continue: ")):
+        return False
+    if not ("tmp" in c["done"] and "replace" in c["pending"] and not c["row"]):
+        return False
+    parts = _parts(msg)
+    if len(parts) != 1 or not parts[0].startswith("dir-not-exact:"):
+        return False
+    m = re.search(r"extra=\[(.*?)\] missing=\[(.*?)\]", parts[0])
+    if not m or m.group(2).strip():
+        return False
+    extra = [x.strip().strip("'") for x in m.group(1).split(",") if x.strip()]
+    return 1 <= len(extra) <= 2 and all(x == "tmp????????" for x in extra)
+
+
+def _known_headerless_history(case, msg):
+    """KF-C16-4: death in the first update after the history file was created (open for append) and before its header
+    line was written: the empty file makes every later save_info_to_hist skip the header, so the resumed run's history has
+    the right rows but no header and later controllers mis-read it (first row taken as header)."""
+    c = _cut(msg)
+    if not (c and msg.startswith("continue: ") and c["upd"] == 1):
+        return False
+    if not (c["done"] and c["done"][-1] == "open" and c["pending"][:2] == ["write", "write"]):
+        return False
+    parts = _parts(msg)
+    if not parts or not parts[0].startswith("final-history-headerless:"):
+        return False
+    return all(p.startswith(("end: hist-length:", "end: restart-failed:", "end: hist-not-prefix:", "end: best-epoch:")) for p in parts[1:])
+
+
 KNOWN_MATCH = {
     "KF-C16-1": _known_stale_checkpoints,
     "KF-C16-2": _known_history_ahead,
+    "KF-C16-3": _known_stale_tempfiles,
+    "KF-C16-4": _known_headerless_history,
 }
 
-FINDINGS = []
+FINDINGS = [
+    {"id": "KF-C16-1", "property": "C16", "clause": "C16.crash.runtime",
+     "what": "a crash after the history row of an epoch is appended and before that update's clean-up finishes leaves checkpoint files of older epochs that no later completed update removes "
+             "(keep_last_and_best_only: directory is not 'exactly last and best'); last and best stay loadable and the history is unaffected",
+     "class": "keep_last_and_best_only, file names with the epoch field, process death after the history append of update e and before the last os.remove of its clean-up, at least one later completed update; "
+              "only symptom: extra model_/optim_ files of epochs < e",
+     "witness": {"mets": [2.0, 1.0, 1.0], "keep": True, "fmt": "epoch", "setting": "plain", "upd": 2, "k": 6, "when": "after"}},
+    {"id": "KF-C16-2", "property": "C16", "clause": "C16.crash.runtime",
+     "what": "file-name formats without the epoch field: the history row is appended before the checkpoint files are replaced, so a crash in between leaves a history whose last (and best) epoch e "
+             "loads the parameters of epoch e-1, or FileNotFoundError when e is the first saved epoch",
+     "class": "saved_model_fmt or saved_optimizer_fmt lacks the epoch field, process death after the history append of update e and before the last os.replace of that update; "
+              "only symptom: last/best epoch e loads model or optimizer state of epoch e-1 or raises FileNotFoundError",
+     "witness": {"mets": [1.0], "keep": True, "fmt": "const", "setting": "plain", "upd": 1, "k": 2, "when": "after"}},
+    {"id": "KF-C16-3", "property": "C16", "clause": "C16.crash.runtime",
+     "what": "a crash between tempfile.NamedTemporaryFile(delete=False) and the os.replace calls of save_model_and_optimizer_with_info leaves randomly named temporary files in the state directory "
+             "forever (keep_last_and_best_only: directory is not 'exactly last and best' after later completed updates)",
+     "class": "keep_last_and_best_only, process death after a temporary checkpoint file was created and before the last os.replace of that update (history row not yet written); only symptom: 1-2 extra tmp* files",
+     "witness": {"mets": [1.0], "keep": True, "fmt": "epoch", "setting": "plain", "upd": 1, "k": 1, "when": "after"}},
+    {"id": "KF-C16-4", "property": "C16", "clause": "C16.crash.runtime",
+     "what": "a crash after save_info_to_hist created the history file and before its first write leaves an empty file; write_header = not os.path.exists(...) is then False forever, the resumed run "
+             "writes rows without a header and the next controller mis-reads the history (first row taken as header: KeyError 'epoch' or epochs missing)",
+     "class": "first update (history file does not exist yet), process death after open(state_csv_path, 'a') and before the header line reaches the file",
+     "witness": {"mets": [1.0], "keep": True, "fmt": "epoch", "setting": "plain", "upd": 1, "k": 7, "when": "after"}},
+]
 
 CHECKERS = {"C16.keep.runtime": check_keep, "C16.crash.runtime": check_crash}
+
+
+def _either(first, second):
+    if first is None or first is second:
+        return second
+
+    def match(case, msg):
+        for fn in (first, second):
+            try:
+                if fn(case, msg):
+                    return True
+            except Exception:
+                pass
+        return False
+
+    return match
 
 
 def _wanted(ctx, name):
@@ -788,13 +862,16 @@ def run_bounded(ctx):
     import pydrobert.torch  # noqa: F401
     import pydrobert.torch.training  # noqa: F401
 
-    ctx.known_match.update(KNOWN_MATCH)
+    for kid, fn in KNOWN_MATCH.items():  # the same finding id may already carry a predicate for the deductive clauses
+        ctx.known_match[kid] = _either(ctx.known_match.get(kid), fn)
     if ctx.quick:
         hb = "every validation-metric sequence over {1,2,3} of length 1..3 and over {1,2} of length 4"
         cb = "keep_last_and_best_only in {True,False} x file names {with epoch field, without} x settings {no early stopping/lr reduction; early stopping thr .5 patience 2 + lr reduction thr .5 patience 1 cooldown 1 factor .5}"
     else:
-        hb = "every validation-metric sequence over {1,2,3} of length 1..4 and over {1,2} of length 5; plus %d seeded random (sequence of length 5..7 over {.5,1,1.5,2,3}, early-stopping/lr-reduction setting, format) pairs" % N_RANDOM
-        cb = "keep_last_and_best_only in {True,False} x file names {both with epoch field, neither, model only, optimizer only} x 4 early-stopping/lr-reduction settings"
+        hb = ("every validation-metric sequence over {1,2,3} of length 1..4 and over {1,2} of length 5 (names with epoch field in both / in neither format, 4 early-stopping/lr-reduction settings); "
+              "every sequence over {1,2,3} of length 1..3 and over {1,2} of length 4 (epoch field in the model name only / optimizer name only, 2 settings); "
+              "plus %d seeded random (sequence of length 5..7 over {.5,1,1.5,2,3}, early-stopping/lr-reduction setting, format) pairs" % N_RANDOM)
+        cb = "keep_last_and_best_only in {True,False}"
     funcs = ["training.TrainingStateController.update_for_epoch", "training.TrainingStateController.save_model_and_optimizer_with_info",
              "training.TrainingStateController.save_info_to_hist", "training.TrainingStateController._clean_up_files",
              "training.TrainingStateController.load_model_and_optimizer_for_epoch", "training.TrainingStateController.load_model_for_epoch",
